@@ -140,3 +140,53 @@ func ruleDomainsEnabled(r *core.Reporter) {
 		r.Held("domainscrawl.AddElements/callers", 0, "never called from module code")
 	}
 }
+
+func init() {
+	register(&core.Rule{ID: "R-PARSE-REFRESHES", Props: []string{"C09", "C05"}, Doc: "(*URL).Parse re-derives the parsed form from Raw every time: on every path to a return it has stored the result of a net/url parse of u.Raw into u.parsed. NormalizeURL ends by calling it after rewriting Raw; sources parse seeds before the preprocessor sees them, so a Parse that keeps an earlier result leaves GetParsed()/String() — what is filtered, seen-checked and requested — describing the un-normalised text", Run: ruleParseRefreshes})
+}
+
+func ruleParseRefreshes(r *core.Reporter) {
+	p := r.P
+	fn := p.Func(rel(pkgModels), "(*URL).Parse")
+	if fn == nil || len(fn.Params) == 0 {
+		r.Undecided("models.URL.Parse", "", "anchor not found")
+		return
+	}
+	r.Analysed(fn)
+	recv := fn.Params[0]
+	isStore := func(in ssa.Instruction) bool {
+		st, ok := in.(*ssa.Store)
+		if !ok {
+			return false
+		}
+		fa, ok := st.Addr.(*ssa.FieldAddr)
+		if !ok || !ir.SameValue(fa.X, recv) {
+			return false
+		}
+		if _, f, okf := ir.FieldOf(fa); !okf || f != "parsed" {
+			return false
+		}
+		// the value comes from a net/url parse of the receiver's Raw
+		var leaves []ssa.Value
+		phiLeaves(st.Val, map[ssa.Value]bool{}, &leaves)
+		for _, l := range leaves {
+			ex, ok := l.(*ssa.Extract)
+			if !ok {
+				return false
+			}
+			c, ok := ex.Tuple.(*ssa.Call)
+			if !ok || !ir.IsCallTo(c, "net/url.ParseRequestURI", "net/url.Parse") || len(c.Call.Args) != 1 {
+				return false
+			}
+			if ir.Path(c.Call.Args[0]) != "$"+recv.Name()+".Raw" {
+				return false
+			}
+		}
+		return len(leaves) > 0
+	}
+	if ret, bad := ir.PathExists([]ir.Pt{ir.Entry(fn)}, ir.Opts{Stop: isStore}, ir.IsExit); bad {
+		r.Violated("models.URL.Parse/refreshes", p.InstrPos(ret), "Parse can return without having re-parsed u.Raw into u.parsed: after NormalizeURL rewrote Raw, GetParsed() and the memoised String() keep describing the old text (host case, default port, dot segments, fragment)")
+	} else {
+		r.Held("models.URL.Parse/refreshes", 1, "every return of Parse follows u.parsed = parse(u.Raw)")
+	}
+}
